@@ -539,6 +539,8 @@ def to_line(case, impl):
         for k in ("gap", "skip"):       # skip / gap left out: the driver takes the defaults read from the source
             if k in i:
                 inp[k] = i[k]
+        if op == "access_cli":
+            inp["cli"] = True           # `-s` left out: the driver takes the command line's own default
         op = "access"
     line = {"op": op, "in": inp}
     if not (isinstance(impl, dict) and "__error__" in impl) and not _malformed(case):
